@@ -15,6 +15,9 @@ func init() {
 
 func checkC01(c *Ctx) {
 	l := c.L
+	checkSnapshotFlags(c, "FLOW-snapshot-flags")
+	checkBatchSiblings(c, "SIB-batch-wrapper")
+	checkNoDirectStoreWrites(c, "OWN-store-writes")
 	checkRootRecordEmpty(c, "TABLE-root-record")
 	c.rule("DOM-nil-value", "nil value rejected before any effect on the working state", 4)
 	c.rule("OWN-config-read", "config fields read only by their owners", 6)
